@@ -414,12 +414,15 @@ fn main() {
     let thorough = run.tier == Tier::Thorough;
     // ---- configurations
     let mut cfgs: Vec<(Cfg, usize)> = Vec::new(); // (config, deviation bound)
-    let max_n = run.tier.pick(4, 5);
+    let max_n = 5;
     for n in 2..=max_n {
         let graphs = connected_graphs(n);
-        let ks: Vec<usize> = if n <= 4 { run.tier.pick(vec![1, 2, 3], vec![1, 2, 3, 8]) } else { vec![2, 8] };
+        let ks: Vec<usize> = if n <= 4 { run.tier.pick(vec![1, 2, 3], vec![1, 2, 3, 8]) } else { run.tier.pick(vec![3], vec![2, 8]) };
         for g in &graphs {
             for r0 in 0..n {
+                if !thorough && n == 5 && r0 != 0 && r0 != n - 1 {
+                    continue; // quick: initiator closest or farthest only
+                }
                 // initiator takes rank r0; the others the remaining ranks in index order
                 let mut rank = vec![0usize; n];
                 rank[0] = r0;
@@ -450,6 +453,9 @@ fn main() {
                     };
                     for f in fault_sets {
                         for distinct_app in [false, true] {
+                            if !thorough && n == 5 && !distinct_app {
+                                continue; // quick: N=5 in the production-like identity mode only
+                            }
                             let dev = if n <= 3 && f.iter().all(|x| *x == Fault::Ok) { run.tier.pick(1, 2) } else { 0 };
                             cfgs.push((Cfg { n, edges: g.clone(), rank: rank.clone(), spread: vec![1, 2, 3, 4, 5, 6], bits: 4, k, faults: f.clone(), liar: None, distinct_app_id: distinct_app }, dev));
                         }
@@ -580,7 +586,7 @@ fn main() {
         ("evaluations", json!(distinct.evaluations())),
         ("distinct_nontrivial", json!(distinct.distinct())),
         ("rule", json!("states/transitions = scheduler choice points executed on the real nodes (every execution is a run of the implementation); distinct = distinct (returned identity list, request count, virtual duration) observations")),
-        ("bounds", json!({"configurations_total": cfgs.len(), "configurations_completed": done, "executions": executions, "max_schedule_len": max_len, "max_nodes_all_graphs": max_n,
+        ("bounds", json!({"configurations_total": cfgs.len(), "configurations_completed": done, "executions": executions, "max_schedule_len": max_len, "max_nodes_all_graphs": max_n, "n5_quick": "K=3, at most one silent peer, distinct application id, initiator closest or farthest",
                            "deviation_bound": "0 on all configurations; every single (thorough: double) delivery deviation (reorder, drop, early timeout) on N<=3 fault-free configurations",
                            "liar_menu": LIES.iter().map(|l| format!("{l:?}")).collect::<Vec<_>>()})),
     ]);
